@@ -148,6 +148,8 @@ structure ElfObs where
   sections : List (String × Bytes × Val)
   segments : List (String × Val)
 
+/- A description without a name table (`shstrndx` = 0, SHN_UNDEF) is well formed only with every
+   `name` empty (`namesOk`): the names reported below are then the empty ones, whatever `nameOff` says. -/
 def ElfDesc.observe (env : Env) (d : ElfDesc) : R ElfObs := do
   let S := d.S
   let header ← S.Elf_Ehdr.decodeRaw env [] d.ehdrRaw
@@ -171,8 +173,12 @@ def ElfDesc.escapesOk (d : ElfDesc) : Bool :=
   (n == 0 || d.xShnum || n ≥ 0xff00 || n > 0)
 
 /-- every section's name sits NUL-terminated at its `sh_name` in the body of the section
-    `e_shstrndx` designates -/
+    `e_shstrndx` designates.  `e_shstrndx` = SHN_UNDEF (0): "the file has no section name string
+    table" (gABI; index 0 is the reserved null section, never a table) — there is nothing to
+    resolve: every section bears the empty name, whatever its `sh_name` -/
 def ElfDesc.namesOk (d : ElfDesc) : Bool :=
+  if d.shstrndx == 0 then d.sections.all fun s => s.name.isEmpty
+  else
   match d.sections[d.shstrndx]? with
   | some st =>
     match st.body with
@@ -280,14 +286,16 @@ def ElfDesc.wf (env : Env) (d : ElfDesc) : Bool :=
   decide (d.shoff + n * d.shentsize < 2 ^ 63) && decide (d.phoff + m * d.phentsize < 2 ^ 63) &&
   decide (n < 2 ^ 32) && decide (m < 2 ^ 32) &&
   (n == 0 || (decide (0 < d.shoff) && decide (d.shstrndx < n))) && (m == 0 || decide (0 < d.phoff)) &&
-  -- name offsets are reachable by a seek
-  (match d.sections[d.shstrndx]? with
+  -- name offsets are reachable by a seek (a file without a name table, e_shstrndx = SHN_UNDEF, has none)
+  (d.shstrndx == 0 ||
+   match d.sections[d.shstrndx]? with
    | some st => d.sections.all fun s => decide (getNatD st.hdr "sh_offset" + s.nameOff < 2 ^ 63)
    | none => true) &&
   -- the string table section itself is not flagged compressed, and every section is interpretable
   (List.range n).all (fun i => d.secOk env 4 i) &&
   -- a file without a section header table has no section-name string table: e_shstrndx = SHN_UNDEF
-  -- (gABI: "If the file has no section name string table, this member holds the value SHN_UNDEF")
+  -- (gABI: "If the file has no section name string table, this member holds the value SHN_UNDEF");
+  -- a file WITH sections may have none as well (`namesOk`: its sections are nameless)
   (n != 0 || d.shstrndx == 0)
 
 /-! ### Well-formedness admitting compressed sections (gABI ch. 4, "Section compression")
@@ -354,7 +362,8 @@ def ElfDesc.wfZ (env : Env) (d : ElfDesc) : Bool :=
   decide (d.shoff + n * d.shentsize < 2 ^ 63) && decide (d.phoff + m * d.phentsize < 2 ^ 63) &&
   decide (n < 2 ^ 32) && decide (m < 2 ^ 32) &&
   (n == 0 || (decide (0 < d.shoff) && decide (d.shstrndx < n))) && (m == 0 || decide (0 < d.phoff)) &&
-  (match d.sections[d.shstrndx]? with
+  (d.shstrndx == 0 ||
+   match d.sections[d.shstrndx]? with
    | some st => d.sections.all fun s => decide (getNatD st.hdr "sh_offset" + s.nameOff < 2 ^ 63)
    | none => true) &&
   (List.range n).all (fun i => d.secOkZ env 4 i) &&
